@@ -388,6 +388,42 @@ def bitref_not(vm, m, callee, args):
     return Not(bool_(dv(vm, args[0])))
 
 
+@native(r'^<&+([a-z_]\w*::)+[A-Z]\w* as Partial(Ord|Eq)>::(lt|le|gt|ge|eq|ne)$', "comparison through references of a crate type: forwards to the type's own (derived) partial_cmp / eq, interpreted from MIR")
+def ref_cmp(vm, m, callee, args):
+    mm = re.match(r'^<&+((?:[a-z_]\w*::)+([A-Z]\w*)) as Partial(Ord|Eq)>::(\w+)$', callee)
+    ty, op = mm.group(2), mm.group(4)
+    def strip(x):
+        # &&T -> &T
+        while isinstance(x, Ref) and isinstance(vm._get(x.cell, x.path), Ref):
+            x = vm._get(x.cell, x.path)
+        return as_ref(x)
+    a, b = strip(args[0]), strip(args[1])
+    if op in ('eq', 'ne'):
+        c = vm.prog.by_signature('eq', first_param='&' + ty)
+        c = [n for n in c if 'PartialEq' in (vm.prog.get(n).header) or True]
+        if len(c) != 1:
+            raise Unsupported('PartialEq for %s: %d candidates' % (ty, len(c)))
+        val, pan = call_merged(vm, m, c[0], [a, b])
+        r = bool_(val)
+        return r if op == 'eq' else Not(r)
+    c = vm.prog.by_signature('partial_cmp', first_param='&' + ty)
+    if len(c) != 1:
+        raise Unsupported('PartialOrd for %s: %d candidates' % (ty, len(c)))
+    val, pan = call_merged(vm, m, c[0], [a, b])
+    v = dv(vm, val)
+    alts = v.alts if isinstance(v, SymEnum) else [(BoolVal(True), v)]
+    want = {'lt': ('Less',), 'le': ('Less', 'Equal'), 'gt': ('Greater',), 'ge': ('Greater', 'Equal')}[op]
+    conds = []
+    for c0, alt in alts:
+        if alt.variant != 'Some':
+            continue
+        o = dv(vm, alt.fields[0])
+        for c1, oa in (o.alts if isinstance(o, SymEnum) else [(BoolVal(True), o)]):
+            if oa.variant in want:
+                conds.append(And(c0, c1))
+    return Or(conds) if conds else BoolVal(False)
+
+
 @native(r'^<&?bool as (std::ops::)?Not>::not$', 'bool negation')
 def bool_not(vm, m, callee, args):
     return Not(bool_(dv(vm, args[0])))
